@@ -55,12 +55,13 @@ const (
 	DefBearerOtherUser      // issued for another user
 	DefBearerTampered
 	// access rules
-	DefBasicACL       // Others on the private container
-	DefSticky         // PUT into the sticky container with a foreign owner in the object
-	DefEACLRequest    // stored eACL denies by request X-header (decidable at request time)
-	DefEACLObjectAttr // stored eACL denies by object attribute, header available locally at request time
-	DefEACLBearerDeny // valid bearer token whose table denies the operation
-	DefEACLHeader     // stored eACL denies by object attribute, header NOT available at request time (GET/HEAD)
+	DefBasicACL         // Others on the private container
+	DefSticky           // PUT into the sticky container with a foreign owner in the object
+	DefEACLRequest      // stored eACL denies by request X-header (decidable at request time)
+	DefEACLObjectAttr   // stored eACL denies by object attribute, header available locally at request time
+	DefEACLBearerDeny   // valid bearer token whose table denies the operation
+	DefEACLHeader       // stored eACL denies by object attribute, header NOT available at request time (GET/HEAD)
+	DefEACLHeaderRemote // same, but the object lives on the other container node: the header arrives through the proxy path
 	NumDefects
 )
 
@@ -69,7 +70,7 @@ var defectNames = [...]string{"none", "sig/no-verify-header", "sig/trusted-peer-
 	"session/expired", "session/not-yet-valid", "session/other-container", "session/other-object", "session/wrong-verb",
 	"session/tampered", "session/both-versions",
 	"bearer/expired", "bearer/not-owner", "bearer/other-container", "bearer/other-user", "bearer/tampered",
-	"acl/basic", "acl/sticky", "acl/eacl-request-xheader", "acl/eacl-request-object-attr", "acl/eacl-bearer-deny", "acl/eacl-header-time"}
+	"acl/basic", "acl/sticky", "acl/eacl-request-xheader", "acl/eacl-request-object-attr", "acl/eacl-bearer-deny", "acl/eacl-header-time", "acl/eacl-header-time-remote"}
 
 func (d Defect) String() string { return defectNames[d] }
 
@@ -77,7 +78,7 @@ func (d Defect) String() string { return defectNames[d] }
 func (d Defect) IsSignature() bool { return d >= DefNoVerifyHeader && d <= DefInnerLayerBroken }
 func (d Defect) IsSession() bool   { return d >= DefSessionExpired && d <= DefSessionBothVersions }
 func (d Defect) IsBearer() bool    { return d >= DefBearerExpired && d <= DefBearerTampered }
-func (d Defect) IsACL() bool       { return d >= DefBasicACL && d <= DefEACLHeader }
+func (d Defect) IsACL() bool       { return d >= DefBasicACL && d <= DefEACLHeaderRemote }
 
 // Versions is the table of API versions put into request meta headers
 // (nil = no version). Origin signatures are required below 2.25; GET/HEAD/RANGE
@@ -115,7 +116,7 @@ const (
 type Spec struct {
 	Op        Op
 	Cnr       int
-	Obj       int // ObjPlain, ObjSecret or ObjAbsent
+	Obj       int // ObjPlain, ObjSecret, ObjAbsent, ObjRemotePlain or ObjRemoteSecret
 	Requester int // IDOwner / IDOther (signer of the request)
 	Scheme    int
 	Version   int // index into Versions
@@ -161,7 +162,7 @@ func (s Spec) Fingerprint() string {
 // String is a compact human-readable rendering for failure messages and samples.
 func (s Spec) String() string {
 	cn := [...]string{"open", "private", "eacl", "sticky"}[s.Cnr]
-	on := [...]string{"plain", "secret", "absent"}[s.Obj]
+	on := [...]string{"plain", "secret", "absent", "remote-plain", "remote-secret"}[s.Obj]
 	rn := [...]string{"owner", "other", "other2"}[s.Requester]
 	sn := [...]string{"sha512", "rfc6979", "walletconnect", "n3"}[s.Scheme]
 	v := Versions[s.Version]
@@ -192,7 +193,7 @@ func Applicable(op Op, d Defect) bool {
 		return op == OpGet || op == OpHead || op == OpRange
 	case DefSticky:
 		return op == OpPut
-	case DefEACLObjectAttr, DefEACLHeader:
+	case DefEACLObjectAttr, DefEACLHeader, DefEACLHeaderRemote:
 		// RANGE and DELETE requests carry no object headers for eACL (address
 		// only), SEARCH has no object, PUT carries its own header.
 		return op == OpGet || op == OpHead
@@ -219,7 +220,7 @@ func Normalize(s Spec) Spec {
 		s.Obj = ObjPlain
 	}
 	d := s.Defect
-	s.Late = (s.Late && (s.Op == OpGet || s.Op == OpHead) && d != DefEACLObjectAttr) || d == DefEACLHeader
+	s.Late = (s.Late && (s.Op == OpGet || s.Op == OpHead) && d != DefEACLObjectAttr && d != DefEACLHeaderRemote) || d == DefEACLHeader
 	if s.Op == OpGet {
 		if s.RangeKind == RangeOffLen && s.RangeLen == 0 {
 			s.RangeOff = 0
@@ -278,11 +279,14 @@ func Normalize(s Spec) Spec {
 		}
 	}
 	if s.Trusted {
-		s.Session = SessionNone // credentials come from the TLS peer, tokens are not consulted for them
 		s.Scheme = SchemeSHA512
 		if d != DefTrustedTTL2 {
-			s.TTL = 1
+			// credentials come from the TLS peer, tokens are not consulted for them
+			s.Session, s.TTL = SessionNone, 1
 		}
+		// DefTrustedTTL2 keeps a drawn (valid) session token: without the TTL
+		// condition an authenticated peer could act for the token's issuer
+		// without signing anything
 	}
 	if d == DefOriginSigFlip || d == DefInnerLayerBroken {
 		if v := Versions[s.Version]; !(v[0] == 2 && v[1] < 25) && !(v[0] == 0 && v[1] == 0) {
@@ -322,10 +326,16 @@ func Normalize(s Spec) Spec {
 			s.Requester = IDOther
 		}
 		s.XHeaders = append([][2]string{{DenyXHeaderKey, DenyXHeaderValue}}, s.XHeaders...)
-	case DefEACLObjectAttr, DefEACLHeader:
+	case DefEACLObjectAttr, DefEACLHeader, DefEACLHeaderRemote:
 		s.Cnr, s.Obj, s.Requester, s.Session, s.Bearer = CnrEACL, ObjSecret, IDOther, SessionNone, false
 		if s.Scheme == SchemeN3 {
 			s.Scheme = SchemeSHA512
+		}
+		if d == DefEACLHeaderRemote {
+			s.Obj = ObjRemoteSecret
+			if s.Trusted || s.TTL < 2 { // only a request that may leave the node reaches the remote copy
+				s.Trusted, s.TTL = false, 2
+			}
 		}
 	case DefEACLBearerDeny:
 		if s.Cnr == CnrPrivate { // bearer rules are not allowed by the private basic ACL
@@ -335,8 +345,13 @@ func Normalize(s Spec) Spec {
 		if s.Cnr == CnrPrivate && !actsAsOwner {
 			s.Requester, s.Scheme = IDOwner, min(s.Scheme, SchemeWalletConnect)
 		}
-		if s.Cnr == CnrEACL && !actsAsOwner && s.Obj == ObjSecret && (s.Op == OpGet || s.Op == OpHead) && !s.Bearer {
-			s.Obj = ObjPlain
+		if s.Cnr == CnrEACL && !actsAsOwner && (s.Op == OpGet || s.Op == OpHead) && !s.Bearer {
+			switch s.Obj {
+			case ObjSecret:
+				s.Obj = ObjPlain
+			case ObjRemoteSecret:
+				s.Obj = ObjRemotePlain
+			}
 		}
 	}
 	if d != DefEACLRequest {
